@@ -217,6 +217,24 @@ func parseRangeHeader(rangeHeader string) ([]storage.ByteRange, error) {
 	return ranges, nil
 }
 
+// dropUnsatisfiableRanges returns the ranges that select at least one byte of
+// an object of the given size, in their original order. A range is
+// unsatisfiable when its first byte lies at or beyond the end of the object or
+// when it is a suffix range of length zero.
+func dropUnsatisfiableRanges(ranges []storage.ByteRange, objectSize int64) []storage.ByteRange {
+	satisfiable := make([]storage.ByteRange, 0, len(ranges))
+	for _, byteRange := range ranges {
+		if byteRange.Start != nil && *byteRange.Start >= objectSize {
+			continue
+		}
+		if byteRange.Start == nil && byteRange.End != nil && *byteRange.End == 0 {
+			continue
+		}
+		satisfiable = append(satisfiable, byteRange)
+	}
+	return satisfiable
+}
+
 func (s *Server) getObjectOrListPartsHandler(w http.ResponseWriter, r *http.Request) {
 	query := r.URL.Query()
 	if query.Has(uploadIdQuery) {
@@ -408,6 +426,23 @@ func (s *Server) getObjectHandler(w http.ResponseWriter, r *http.Request) {
 		}
 		if ifNoneMatch != nil {
 			getOpts.IfNoneMatchETag = ifNoneMatch
+		}
+	}
+
+	// A set of several ranges is satisfiable as soon as one of its members is
+	// (RFC 7233 section 2.1); the unsatisfiable members are then ignored. The
+	// storage layer rejects the whole request for a single unsatisfiable range,
+	// so those have to be dropped up front, which needs the object size.
+	if len(storageRanges) > 1 {
+		var headOpts *storage.HeadObjectOptions
+		if versionID != nil {
+			headOpts = &storage.HeadObjectOptions{VersionID: versionID}
+		}
+		// Errors are left to GetObject below, which reports them properly.
+		if headObject, err := s.storage.HeadObject(ctx, bucketName, key, headOpts); err == nil {
+			if satisfiableRanges := dropUnsatisfiableRanges(storageRanges, headObject.Size); len(satisfiableRanges) > 0 {
+				storageRanges = satisfiableRanges
+			}
 		}
 	}
 
